@@ -9,6 +9,9 @@ usage: tools/seed_eval.py <src_dir_with_patch.diff+demo.rs+meta.json> <seed_id> 
 3. Store everything under /verif/seeded/<seed_id>/ (patch.diff, demo.rs, meta.json with what was run and seen).
 """
 import json, os, shutil, subprocess, sys, time
+# SEED_REPO / SEED_VERIF: run phase 2 against scratch copies (a worktree of /repo and a copy of /verif whose harness
+# depends on it) instead of /repo and /verif themselves, e.g. while a long `vp run` is using /repo
+REPO = os.environ.get("SEED_REPO", "/repo"); VERIF = os.environ.get("SEED_VERIF", "/verif")
 
 def sh(cmd, cwd=None, timeout=3600):
     p = subprocess.run(cmd, shell=True, cwd=cwd, capture_output=True, text=True, timeout=timeout,
@@ -76,19 +79,19 @@ def main():
         if checks == "target": todo = [prop]
         elif checks == "all": todo = [prop] + [p for p in allp if p != prop]
         else: todo = checks.split(",")
-        st = sh("git -C /repo status --porcelain -- src")[1].strip()
+        st = sh(f"git -C {REPO} status --porcelain -- src")[1].strip()
         if st:
-            print("refusing: /repo has local modifications", st); sys.exit(2)
-        rc, out = sh(f"git -C /repo apply {patch}")
+            print(f"refusing: {REPO} has local modifications", st); sys.exit(2)
+        rc, out = sh(f"git -C {REPO} apply {patch}")
         try:
             for c in todo:
                 t0 = time.time()
-                rc, out = sh(f"VERIF_TIER={tier} ./check {c} {tier}", cwd="/verif", timeout=7200)
+                rc, out = sh(f"VERIF_TIER={tier} ./check {c} {tier}", cwd=VERIF, timeout=7200)
                 sigs = [l.strip()[:300] for l in out.splitlines() if l.strip().startswith("signature=")]
                 res["checks"][c] = {"exit": rc, "detected": rc == 1, "wall_s": round(time.time() - t0, 1), "first_signatures": sigs[:4]}
                 print(f"  {sid}: check {c} exit={rc} {'DETECTED' if rc == 1 else ('inconclusive' if rc == 2 else 'missed')} {sigs[:1]}")
         finally:
-            sh("git -C /repo checkout -- .")
+            sh(f"git -C {REPO} checkout -- .")
     # ---- 3. store
     dst = f"/verif/seeded/{sid}"
     os.makedirs(dst, exist_ok=True)
